@@ -8,6 +8,9 @@
    (`silent p x` only says that the rest of the element does not mention p). *)
 From Coq Require Import String Permutation.
 From RV Require Import Model.Base Gen.SvgTables Gen.Units Model.CascadeBase Gen.SvgInsert Model.Cascade Proofs.Cascade.
+From RV Require Import Gen.ReadSites Model.CascadeSites Proofs.CascadeSites.
+From RV Require Import Model.CascadeSel Proofs.CascadeSel.
+From Coq Require Import Sorted.
 
 (* What `attribute(a)` sees after parse_svg_element = a fold of the two-rule machine `step` over the
    declarations that mention `a` (attributes first-wins, then CSS in rule order, then style). *)
@@ -227,6 +230,133 @@ Proof. exact unit_font_size_agrees. Qed.
 Print Assumptions C09_unit_font_size.
 Local Close Scope Q_scope.
 
+(* ---- equivalent notation: the converter's read sites (Gen/ReadSites.v: every read of a presentation attribute in
+   crates/usvg/src/parser/*.rs with the Rust type the value is parsed with, regenerated from the source) ------------ *)
+(* every function that reads a property reads it with exactly the notation set the specification gives the property *)
+Theorem C09_read_sites_notation : forall s, In s read_sites -> value_site s = true ->
+  is_presentation (rs_attr s) = true /\ site_class s <> NC_Unknown /\
+  fn_classes s = spec_classes (rs_attr s) /\ In (site_class s) (spec_classes (rs_attr s)).
+Proof.
+  intros s H V. destruct (sites_classified s H) as [A B]. repeat split; try assumption.
+  - apply sites_notation; assumption.
+  - apply sites_in_spec; assumption.
+Qed.
+Print Assumptions C09_read_sites_notation.
+
+(* any two read sites of one property: their functions accept the same notation set, and the reader of the one is
+   accepted by the function of the other; for single-notation properties the two readers have the same class *)
+Theorem C09_read_sites_uniform : forall s1 s2, In s1 read_sites -> In s2 read_sites -> rs_attr s1 = rs_attr s2 ->
+  value_site s1 = true -> value_site s2 = true ->
+  fn_classes s1 = fn_classes s2 /\ In (site_class s1) (fn_classes s2) /\
+  (forall c, spec_classes (rs_attr s1) = [c] -> site_class s1 = site_class s2).
+Proof.
+  intros s1 s2 H1 H2 E V1 V2. destruct (sites_uniform s1 s2 H1 H2 E V1 V2) as [A B]. repeat split; try assumption.
+  intros c Hc. eapply sites_same_class; eassumption.
+Qed.
+Print Assumptions C09_read_sites_uniform.
+
+(* opacity, fill-opacity, stroke-opacity, stop-opacity, flood-opacity: `Opacity` (number | percentage) at every site *)
+Theorem C09_opacity_family_reader : forall s, In s read_sites -> opacity_family (rs_attr s) = true -> value_site s = true ->
+  rs_reader s = "Opacity"%string.
+Proof. exact sites_opacity. Qed.
+Print Assumptions C09_opacity_family_reader.
+
+(* explicit inherit versus ancestor inheritance, at the converter: a property the specification inherits is never read from
+   the element alone - every value site uses find_attribute, an ancestor-walking helper, or walks `.ancestors()` itself *)
+Theorem C09_inherited_read_through_ancestors : forall s, In s read_sites -> value_site s = true ->
+  spec_noninherited (rs_attr s) = false -> rs_walk s <> "none"%string.
+Proof. exact sites_lookup. Qed.
+Print Assumptions C09_inherited_read_through_ancestors.
+
+(* equivalent unit: every <length> / <length list> read of a presentation property is converted by units::convert_length
+   (Gen.Units.convert_abs, C09_unit_equiv) - directly through a helper, by a helper call in the same function, or, for
+   font-size, by resolve_font_size's own table (C09_unit_font_size) *)
+Theorem C09_length_sites_converted : forall s, In s read_sites -> length_site s = true ->
+  In (rs_how s) length_converters \/ rs_attr s = A_FontSize \/
+  exists t, In t read_sites /\ rs_file t = rs_file s /\ rs_fn t = rs_fn s /\ rs_attr t = rs_attr s /\ In (rs_how t) length_converters.
+Proof. exact sites_length. Qed.
+Print Assumptions C09_length_sites_converted.
+
+(* the checker is sound for any site table (so the obligation above is exactly `forallb site_ok read_sites = true`) *)
+Theorem C09_read_sites_checker_sound : forall sites, forallb (site_ok_in sites) sites = true ->
+  forall s1 s2, In s1 sites -> In s2 sites -> rs_attr s1 = rs_attr s2 -> value_site s1 = true -> value_site s2 = true ->
+  fn_classes_in sites s1 = fn_classes_in sites s2 /\
+  (opacity_family (rs_attr s1) = true -> rs_reader s1 = "Opacity"%string /\ rs_reader s2 = "Opacity"%string).
+Proof.
+  intros sites Hok s1 s2 H1 H2 E V1 V2. split.
+  - apply gen_uniform; assumption.
+  - intro O. split; [apply (gen_opacity sites Hok s1 H1 O V1)|]. rewrite E in O. apply (gen_opacity sites Hok s2 H2 O V2).
+Qed.
+Print Assumptions C09_read_sites_checker_sound.
+
+
+(* ---- CSS rule lists: selector matching (simplecss over usvg's XmlNode), rule order, winner (Model/CascadeSel.v; tied by the
+   `selector` correspondence and the anchors of the Element impl) ------------------------------------------------------ *)
+(* the per-name machine, declaratively, for ALL candidate sequences: the first !important candidate if there is one,
+   otherwise the last candidate *)
+Theorem C09_cascade_winner : forall l,
+  fold_left step l None = winner (somes l) /\
+  (forall d, winner (somes l) = Some d -> a_imp d = true ->
+     exists l1 l2, somes l = l1 ++ d :: l2 /\ forallb (fun x => negb (a_imp x)) l1 = true) /\
+  (forall d, winner (somes l) = Some d -> a_imp d = false ->
+     (exists l1, somes l = l1 ++ [d]) /\ forallb (fun x => negb (a_imp x)) (somes l) = true).
+Proof.
+  intro l. split; [apply fold_step_winner|]. split; intros d H Hi.
+  - apply winner_important; assumption.
+  - apply winner_plain; assumption.
+Qed.
+Print Assumptions C09_cascade_winner.
+
+(* ALL rule lists, ALL element positions: what attribute(a) sees when the element's CSS declarations are those of the
+   matching rules of the sheet in (specificity, source order) *)
+Theorem C09_rules_cascade : forall anc x rules e a,
+  get_attr a (build_attrs anc (set_css x (sheet_css rules e)))
+  = fold_left step (flat_map (cand_decl anc (x_tag x) a) (sheet_css rules e) ++ flat_map (cand_decl anc (x_tag x) a) (x_style x))
+                   (fold_left step_first (flat_map (cand_attr anc (x_tag x) (x_ignore_ids x) a) (x_attrs x)) None).
+Proof. exact rules_lookup. Qed.
+Print Assumptions C09_rules_cascade.
+
+Theorem C09_rules_winner : forall anc x rules e a,
+  flat_map (cand_attr anc (x_tag x) (x_ignore_ids x) a) (x_attrs x) = [] ->
+  flat_map (cand_decl anc (x_tag x) a) (x_style x) = [] ->
+  get_attr a (build_attrs anc (set_css x (sheet_css rules e)))
+  = winner (somes (flat_map (cand_decl anc (x_tag x) a) (sheet_css rules e))).
+Proof. exact rules_winner. Qed.
+Print Assumptions C09_rules_winner.
+
+(* the rule order is a stable sort by specificity: same rules, ascending specificity, source order among equals *)
+Theorem C09_rule_order : forall rules,
+  Permutation (sort_rules rules) rules /\ Sorted key_le (sort_rules rules) /\
+  (forall k, filter (fun r => (rule_key r =? k)%N) (sort_rules rules) = filter (fun r => (rule_key r =? k)%N) rules).
+Proof. intro rules. split; [apply sort_rules_perm|]. split; [apply sort_rules_sorted|]. intro k. apply sort_rules_stable. Qed.
+Print Assumptions C09_rule_order.
+
+(* the selector forms, for every element position: `*`, type, attribute forms (#id = [id="v"], .c = [class~="c"]),
+   compound, :first-child, the other pseudo-classes, and the three combinators *)
+Theorem C09_selector_forms : forall e,
+  sel_matches [one None []] e = true /\
+  (forall t, sel_matches [one (Some t) []] e = has_local_name e t) /\
+  (forall n op, sel_matches [one None [SubAttr n op]] e = attribute_matches e n op) /\
+  (forall t s1 s2, match_selector {| s_type := t; s_subs := s1 ++ s2 |} e
+                   = match_selector {| s_type := t; s_subs := s1 |} e && forallb (sub_matches e) s2) /\
+  (pseudo_class_matches e PFirstChild = true <-> prev_sibling_element e = None) /\
+  (forall c, c <> PFirstChild -> pseudo_class_matches e c = false) /\
+  (forall s c, sel_matches (s ++ [c]) e =
+     match_selector (c_sel c) e &&
+     match c_comb c with
+     | CNone => true
+     | CDescendant => existsb (sel_matches s) (ancestors_of e)
+     | CChild => match parent_element e with Some p => sel_matches s p | None => false end
+     | CAdjacent => match prev_sibling_element e with Some p => sel_matches s p | None => false end
+     end).
+Proof.
+  intro e. split; [apply sel_universal|]. split; [intro; apply sel_type|]. split; [intros; apply sel_attr|].
+  split; [intros; apply sel_compound|]. split; [apply first_child_iff|]. split; [intros; apply other_pseudo_never; assumption|].
+  intros. apply sel_matches_snoc.
+Qed.
+Print Assumptions C09_selector_forms.
+
+
 (* ---- non-vacuity -------------------------------------------------------------------------------- *)
 Local Open Scope string_scope.
 Definition ex_parent : list attr := [mk A_Fill "green" true; mk A_Opacity "0.5" false].
@@ -262,4 +392,49 @@ Example C09_nv_style_only :
   is_style_only A_MixBlendMode = true /\
   lookup A_MixBlendMode (build_attrs [] (xe E_G false [(A_MixBlendMode, "multiply")] [] [])) = None /\
   lookup A_MixBlendMode (build_attrs [] (xe E_G false [] [] [dc A_MixBlendMode "multiply" false])) = Some "multiply".
+Proof. vm_compute. repeat split. Qed.
+(* read sites: every opacity property is read somewhere; flood-* by feFlood AND feDropShadow, lighting-color by both
+   lighting primitives; a table with one `f32` reader of flood-opacity (seeded/C09-13) is rejected by the checker *)
+Example C09_nv_read_sites :
+  (forall a, opacity_family a = true -> family_read a = true) /\
+  readers_of A_FloodOpacity = [E_FeDropShadow; E_FeFlood] /\
+  readers_of A_LightingColor = [E_FeDiffuseLighting; E_FeSpecularLighting] /\
+  (let bad := [mk_site "filter.rs" "convert_drop_shadow" A_FloodOpacity "attribute" "f32" "none";
+               mk_site "filter.rs" "convert_flood" A_FloodOpacity "attribute" "Opacity" "none"] in
+   forallb (site_ok_in bad) bad = false) /\
+  (let good := [mk_site "filter.rs" "convert_drop_shadow" A_FloodOpacity "attribute" "Opacity" "none";
+                mk_site "filter.rs" "convert_flood" A_FloodOpacity "attribute" "Opacity" "none"] in
+   forallb (site_ok_in good) good = true) /\
+  site_lookup_ok (mk_site "marker.rs" "is_valid" A_MarkerMid "attribute" "SvgNode" "none") = false /\
+  site_lookup_ok (mk_site "marker.rs" "is_valid" A_MarkerMid "find_attribute" "SvgNode" "find_attribute") = true /\
+  existsb length_site read_sites = true.
+Proof.
+  split; [exact family_all_read|]. destruct flood_readers as [A [_ B]]. repeat split; try assumption; vm_compute; reflexivity.
+Qed.
+(* rule lists: <svg><g id="i1" class="c1 c2"><rect/><rect class="c2"/></g></svg>; the id rule wins over the class rule
+   whatever the source order; a lower-specificity !important wins; `g > rect + rect.c2` matches the second rect only;
+   [class|="c1"] does not match "c1 c2", [class~="c2"] does *)
+Definition ex_g : einfo := {| ei_tag := "g"; ei_attrs := [("id", "i1"); ("class", "c1 c2")] |}.
+Definition ex_r1 : einfo := {| ei_tag := "rect"; ei_attrs := [] |}.
+Definition ex_r2 : einfo := {| ei_tag := "rect"; ei_attrs := [("class", "c2")] |}.
+Definition ex_svg : level := ({| ei_tag := "svg"; ei_attrs := [] |}, []).
+Definition pos_g : epos := [(ex_g, []); ex_svg].
+Definition pos_r1 : epos := (ex_r1, []) :: pos_g.
+Definition pos_r2 : epos := (ex_r2, [ex_r1]) :: pos_g.
+Definition sel_id : selector := [one None [SubAttr "id" (OpMatches "i1")]].
+Definition sel_class : selector := [one None [SubAttr "class" (OpContains "c1")]].
+Definition sel_adj : selector :=
+  [one (Some "g") []; {| c_comb := CChild; c_sel := {| s_type := Some "rect"; s_subs := [] |} |};
+   {| c_comb := CAdjacent; c_sel := {| s_type := Some "rect"; s_subs := [SubAttr "class" (OpContains "c2")] |} |}].
+Definition ex_rules (imp : bool) : list rule :=
+  [ {| r_sel := sel_id; r_decls := [dc A_Fill "by-id" false] |}; {| r_sel := sel_class; r_decls := [dc A_Fill "by-class" imp] |} ].
+Example C09_nv_rules :
+  lookup A_Fill (build_attrs [] (set_css (xe E_G false [] [] []) (sheet_css (ex_rules false) pos_g))) = Some "by-id" /\
+  lookup A_Fill (build_attrs [] (set_css (xe E_G false [] [] []) (sheet_css (rev (ex_rules false)) pos_g))) = Some "by-id" /\
+  lookup A_Fill (build_attrs [] (set_css (xe E_G false [] [] []) (sheet_css (ex_rules true) pos_g))) = Some "by-class" /\
+  sel_matches sel_adj pos_r2 = true /\ sel_matches sel_adj pos_r1 = false /\ sel_matches sel_adj pos_g = false /\
+  attribute_matches pos_g "class" (OpStartsWith "c1") = false /\ attribute_matches pos_g "class" (OpContains "c2") = true /\
+  op_matches (OpStartsWith "en") "en-US" = true /\ op_matches (OpStartsWith "en") "enx" = false /\
+  (specificity sel_id > specificity sel_adj)%N /\ (specificity sel_adj > specificity sel_class)%N /\
+  pseudo_class_matches pos_r1 PFirstChild = true /\ pseudo_class_matches pos_r2 PFirstChild = false.
 Proof. vm_compute. repeat split. Qed.
